@@ -101,6 +101,9 @@ func vfUnsignedStream(payload []byte, sizes []int, ct checksumType) []byte {
 	return s
 }
 
+// vfSigRegions: where the chunk signatures of the last stream built by vfSignedStream lie ([start,end) offsets)
+var vfSigRegions []vfRegion
+
 const vfSeedSig = "4f232c4386841ef735655705268965c44a0e4690baa4adea153f7db9fa80a0a9"
 
 var vfDate = time.Date(2024, 5, 6, 7, 8, 9, 0, time.UTC)
@@ -121,6 +124,7 @@ func vfSignedStream(payload []byte, sizes []int, ct checksumType) []byte {
 	first := true
 	all := append(append([]int{}, sizes...), 0)
 	vfNonFirstHeaders = nil
+	vfSigRegions = nil
 	vfMaxHeader = 0
 	for _, n := range all {
 		hs := len(s)
@@ -135,6 +139,7 @@ func vfSignedStream(payload []byte, sizes []int, ct checksumType) []byte {
 		ref.prevSig = sig
 		s = append(s, strconv.FormatInt(int64(n), 16)...)
 		s = append(s, ";chunk-signature="...)
+		vfSigRegions = append(vfSigRegions, vfRegion{len(s), len(s) + len(sig)})
 		s = append(s, sig...)
 		s = append(s, "\r\n"...)
 		if !isFirst {
@@ -321,9 +326,29 @@ func vfInvalid(kind int) {
 	zzvf.AssumeCollisionFree("hmac-sha256")
 	stream := vfBuildStream(kind, payload, sizes, ct)
 	zzvf.Bound("stream_len", len(stream))
-	mode := zzvf.Choice("mutation", 3)
+	nmodes := 3
+	if kind != 0 {
+		nmodes = 5 // signed streams: additionally one chunk signature removed altogether, an unsigned chunk smuggled in
+	}
+	mode := zzvf.Choice("mutation", nmodes)
 	var bad []byte
 	switch mode {
+	case 3: // the signature value of one chunk removed ("chunk-signature=" followed directly by CRLF)
+		which := vfSigRegions[zzvf.Choice("blank_signature_of_chunk", len(vfSigRegions))]
+		bad = append(append([]byte{}, stream[:which.start]...), stream[which.end:]...)
+		zzvf.Trace("mutation=blank-signature")
+	case 4: // a data chunk whose signature value is empty, inserted right before the final chunk
+		extra := zzvf.BytesN("smuggled", 1)
+		at := 0
+		ins := append([]byte("1;chunk-signature=\r\n"), extra...)
+		if len(vfNonFirstHeaders) > 0 {
+			at = vfNonFirstHeaders[len(vfNonFirstHeaders)-1].start
+			ins = append([]byte("\r\n"), ins...)
+		} else {
+			ins = append(ins, "\r\n"...)
+		}
+		bad = append(append(append([]byte{}, stream[:at]...), ins...), stream[at:]...)
+		zzvf.Trace("mutation=unsigned-chunk-inserted")
 	case 0: // one byte replaced by a different value (the very first size digit is outside the bound: solver unknown)
 		pos := 1 + zzvf.Choice("pos", len(stream)-1)
 		nb := zzvf.Byte("newbyte")
@@ -347,8 +372,11 @@ func vfInvalid(kind int) {
 		zzvf.Reach("accepted")
 		// accepted: only legal if the decoded object is the original payload and the stream was semantically unchanged
 		zzvf.Assert(zzvf.BytesEq(out, payload), "accepted-object-equals-payload")
-		if mode != 0 {
+		if mode == 1 || mode == 2 {
 			zzvf.Fail("truncated-or-extended-stream-accepted")
+		}
+		if mode == 3 || mode == 4 {
+			zzvf.Fail("stream-with-a-missing-chunk-signature-accepted")
 		}
 	} else {
 		zzvf.Reach("rejected")
@@ -423,4 +451,20 @@ func VfDeferredAuth() {
 			zzvf.Assert(vfSigRuns > 0, "signature-verified-before-body-accepted@signed-reader")
 		}
 	}
+}
+
+// VfCrashSignedHeader: C20 – the signed aws-chunked reader on a first chunk header whose size field is arbitrary (up to 2 (3)
+// bytes, any value) followed by a well-formed signature part and a few data bytes: never panics, never allocates by input.
+func VfCrashSignedHeader() {
+	n := 2 + zzvf.Tier()
+	zzvf.Bound("size_field_len_max", n)
+	zzvf.Bound("alloc_limit", 1024)
+	size := zzvf.String("size_field", n)
+	data := zzvf.Bytes("data", 3)
+	stream := append([]byte(size), (";chunk-signature=" + vfSeedSig + "\r\n")...)
+	stream = append(stream, data...)
+	stream = append(stream, "\r\n0;chunk-signature="+vfSeedSig+"\r\n\r\n"...)
+	r := vfNewReader(1, &vfFragReader{data: stream}, "")
+	_, _, _ = vfDrain(r, 64, 4*len(stream)+16)
+	zzvf.Reach("returned")
 }
